@@ -316,7 +316,7 @@ func (c *concretizer) value(key, class string) string {
 		case "huge":
 			// durations are accumulated in an int: 2 x 2^63 and 4 x 2^62 wrap the cycle length to 0
 			return c.pick("u9223372036854775808d9223372036854775808", "u4611686018427387904d4611686018427387904u4611686018427387904d4611686018427387904",
-				"u9223372036854775808d9223372036854775808", "u"+hugeStr, "u99999999999999999999", "u"+hugeStr+"d"+hugeStr, "u4294967296")
+				"d9223372036854775808u9223372036854775808", "u"+hugeStr+"d"+hugeStr)
 		case "nonnum":
 			return c.pick("abc", "x10", "uu", "ud", "u10x")
 		case "float":
@@ -493,7 +493,7 @@ func (c *concretizer) livesimPath(a absReq, kvs []kv) (string, string) {
 		}
 		t = num(pat, n)
 	case "num_huge":
-		t = fmt.Sprintf(va(), c.pick("4294967295", "4294967296", "2147483648", hugeStr))
+		t = fmt.Sprintf(va(), c.pick("4294967295", "4000000000", "999999999", "2147483648", "4294967296", hugeStr))
 	case "num_ovf":
 		t = fmt.Sprintf(va(), c.pick("9223372036854775808", "99999999999999999999999"))
 	case "vtime":
